@@ -44,10 +44,15 @@ pub fn gen_world(rng: &mut Rng, n_templates: usize, n_datas: usize, stateful: bo
         })
         .collect();
     let mut partials = partials;
+    if stateful && templates.len() >= 2 && rng.chance(1, 2) {
+        // the last template is a near-duplicate of the first (see gen::near_duplicate)
+        let last = templates.len() - 1;
+        templates[last] = gen::near_duplicate(&templates[0], rng);
+    }
     if stateful {
         // history engines: renders that fail midway for some data and succeed for other data
         for t in templates.iter_mut() {
-            if rng.chance(1, 2) {
+            if rng.chance(1, 3) {
                 gen::inject_abort(t, rng);
             }
             if rng.chance(1, 3) {
@@ -63,7 +68,7 @@ pub fn gen_world(rng: &mut Rng, n_templates: usize, n_datas: usize, stateful: bo
         }
         for d in datas.iter_mut() {
             if let crate::data::Dv::Object(o) = d {
-                if rng.chance(1, 3) {
+                if rng.chance(1, 4) {
                     o.retain(|(k, _)| k != "boom");
                 }
             }
